@@ -26,7 +26,8 @@ META = {
              's), valid_dataset: multi-scale datasets with per-scale block'
              ' sizes read through PrecomputedIO, valid_huge: channels of 2'
              '4+ MiB.'
-             " Round 12: well-formed images of other containers / pixel types offered to the JPEG decoder."),
+             " Round 12: well-formed images of other containers / pixel types offered to the JPEG decoder."
+             " Round 16: valid JPEG files in one-row / one-column layouts."),
     "trusted_base": ["vlib/refs/cseg_spec.py encoder for alternative valid "
                      "layouts", "Pillow as JPEG writer"],
     "assumptions": ["a watchdog of 30 s decides 'hangs' (normal cases take "
@@ -360,7 +361,10 @@ def valid_cases(draw):
     else:
         case.update({"dtype": "uint8", "channels": draw(
             st.sampled_from([1, 3])), "quality": draw(st.integers(1, 100)),
-            "plane": draw(st.sampled_from(["xy", "xz"]))})
+            # the format allows any image width and height whose product is
+            # the number of voxels (pixels in x-fastest order): the two
+            # layouts the package writes, one row, one column
+            "plane": draw(st.sampled_from(["xy", "xz", "row", "col"]))})
     return case
 
 
@@ -382,8 +386,9 @@ def check_valid(ctx, case):
         chunk = smooth_chunk(C, X, Y, Z, case["seed"])
         # a JPEG written by an independent writer call (Pillow directly)
         import PIL.Image
-        plane = chunk.reshape(C, Z * Y, X) if case["plane"] == "xy" else \
-            chunk.reshape(C, Z, Y * X)
+        plane = chunk.reshape(C, *{"xy": (Z * Y, X), "xz": (Z, Y * X),
+                                   "row": (1, Z * Y * X),
+                                   "col": (Z * Y * X, 1)}[case["plane"]])
         img = PIL.Image.fromarray(plane[0] if C == 1
                                   else np.moveaxis(plane, 0, -1))
         bio = io.BytesIO()
